@@ -71,3 +71,11 @@ class Inputs(object):
 def term(x):
     """z3 term / concrete value behind a proxy or plain value."""
     return getattr(x, 'e', x)
+
+
+def same(a, b):
+    """Identity of symbolic terms (verification) / equality of concrete values (replay)."""
+    a = term(a); b = term(b)
+    if isinstance(a, z3.ExprRef) or isinstance(b, z3.ExprRef):
+        return isinstance(a, z3.ExprRef) and isinstance(b, z3.ExprRef) and a.eq(b)
+    return type(a) is type(b) and a == b
